@@ -361,6 +361,20 @@ Proof.
   apply (IHv r k x eq_refl Hin); [exact (Hall _ _ Hin')|exact Hx].
 Qed.
 
+(* subsequences (order-preserving sub-lists) *)
+Inductive subseq {A : Type} : list A -> list A -> Prop :=
+| ss_nil : subseq [] []
+| ss_drop x l1 l2 : subseq l1 l2 -> subseq l1 (x :: l2)
+| ss_keep x l1 l2 : subseq l1 l2 -> subseq (x :: l1) (x :: l2).
+
+Lemma pruned_fields_keys r d : pruned_fields r d -> subseq (map fst r) (map fst d).
+Proof.
+  induction 1 as [|k v r d H IH|k v v' r d Hv H IH]; cbn [map fst].
+  - constructor.
+  - apply ss_drop. exact IH.
+  - apply ss_keep. exact IH.
+Qed.
+
 Section WithMatch.
   Variable matchf : doc -> doc -> res bool.
 
@@ -1399,5 +1413,31 @@ Section WithMatch.
     no_colliding_paths pr -> ProjSrc d pr = Ok (r, s) -> Proj s pr = Ok r.
   Proof.
     intros Hnc H. rewrite (project_pure_partial _ _ _ _ Hnc H). exact (project_src_result _ _ _ _ H).
+  Qed.
+
+  (* order of the remaining top-level fields of an exclusion *)
+  Theorem exclusion_order d pr r :
+    plain_projection pr -> included_keys pr = [] -> nodup_keys (VDoc d) = true ->
+    Proj d pr = Ok r -> subseq (map fst r) (map fst d).
+  Proof.
+    intros Hpp Hne Hnd H.
+    pose proof (proj2 (proj2 (proj2 (exclusion_spec _ _ _ Hpp Hne Hnd H)))) as Hp.
+    apply pruned_fields_keys. apply pruned_fields_of. exact Hp.
+  Qed.
+
+  (* the full purity statement is false of the faithful model: the recorded
+     colliding-paths defect *)
+  Definition wt_doc : doc :=
+    [("_id", VInt32 7); ("a", VDoc [("b", VArr [VInt32 1; VInt32 2; VInt32 3]); ("c", VInt32 5)])].
+  Definition wt_projection : doc :=
+    [("a", VInt32 1); ("a.b", VDoc [("$slice", VInt32 1)])].
+
+  Theorem project_pure_refuted :
+    exists d pr r s, ProjSrc d pr = Ok (r, s) /\ s <> d.
+  Proof.
+    exists wt_doc, wt_projection.
+    exists [("_id", VInt32 7); ("a", VDoc [("b", VArr [VInt32 1]); ("c", VInt32 5)])].
+    exists [("_id", VInt32 7); ("a", VDoc [("b", VArr [VInt32 1]); ("c", VInt32 5)])].
+    split; [vm_compute; reflexivity|]. unfold wt_doc. intro H. discriminate H.
   Qed.
 End WithMatch.
